@@ -1512,6 +1512,367 @@ func runSlowLoad(cfg slowCfg, class string) gen.Case {
 }
 
 // ---------------------------------------------------------------------------------------------------------------
+// gated: a shard is replaced and the garbage collector runs *while a search is executing inside that shard* - forced
+// from inside the stub shard's Search / List (a gate carried by the request's context), not hoped for. Compound shards
+// (several repositories per shard) and queries whose repository atom selects all, some or none of a shard's
+// repositories go through the real selectRepoSet; whatever list the search ends up working on must keep the shards it
+// is using alive: no Close before the search has left the shard.
+
+type gateKey struct{}
+
+type countSender struct {
+	mu    sync.Mutex
+	files int
+}
+
+func (c *countSender) Send(r *zoekt.SearchResult) {
+	c.mu.Lock()
+	c.files += len(r.Files)
+	c.mu.Unlock()
+}
+
+type cstub struct {
+	sid, key, gen int
+	repos         []string // a compound shard holds several repositories
+	ids           []uint32
+	prios         []float64
+	closed        atomic.Bool
+	reg           *registry
+}
+
+func (s *cstub) gate(ctx context.Context) {
+	if g, ok := ctx.Value(gateKey{}).(func()); ok {
+		g() // replaces the shards and forces GCs while we are "searching"
+	}
+	if s.closed.Load() {
+		s.reg.useAfter.Add(1)
+	}
+}
+
+func (s *cstub) Search(ctx context.Context, q query.Q, opts *zoekt.SearchOptions) (*zoekt.SearchResult, error) {
+	if s.closed.Load() {
+		s.reg.useAfter.Add(1)
+	}
+	s.gate(ctx)
+	res := &zoekt.SearchResult{RepoURLs: map[string]string{}, LineFragments: map[string]string{}}
+	for i, n := range s.repos {
+		res.Files = append(res.Files, zoekt.FileMatch{FileName: fmt.Sprintf("k%d-g%d", s.key, s.gen), Repository: n, RepositoryID: s.ids[i]})
+		res.RepoURLs[n], res.LineFragments[n] = "", ""
+	}
+	res.Stats.FileCount, res.Stats.MatchCount = len(s.repos), len(s.repos)
+	return res, nil
+}
+
+func (s *cstub) List(ctx context.Context, q query.Q, opts *zoekt.ListOptions) (*zoekt.RepoList, error) {
+	if s.closed.Load() {
+		s.reg.useAfter.Add(1)
+	}
+	s.gate(ctx)
+	rl := &zoekt.RepoList{}
+	for i, n := range s.repos {
+		rl.Repos = append(rl.Repos, &zoekt.RepoListEntry{Repository: zoekt.Repository{Name: n, ID: s.ids[i],
+			RawConfig: map[string]string{"priority": strconv.FormatFloat(s.prios[i], 'f', 2, 64), "gen": strconv.Itoa(s.gen)}}})
+	}
+	return rl, nil
+}
+
+func (s *cstub) Close() {
+	if !s.closed.CompareAndSwap(false, true) {
+		s.reg.doubleClose.Add(1)
+		return
+	}
+	s.reg.mu.Lock()
+	s.reg.closed = append(s.reg.closed, s.sid)
+	s.reg.mu.Unlock()
+}
+func (s *cstub) String() string { return fmt.Sprintf("cstub(k%d,g%d)", s.key, s.gen) }
+
+type gatedCfg struct {
+	Shards   int    `json:"shards"`
+	PerShard int    `json:"per_shard"` // repositories per shard (>= 2: compound)
+	Requests int    `json:"requests"`
+	Seed     uint64 `json:"seed"`
+}
+
+func runGated(cfg gatedCfg) (verdict, key string, stats map[string]int) {
+	reg := &registry{}
+	vs := search.VerifNewShardedSearcher(4)
+	vs.MarkReady()
+	ss := vs.Streamer()
+	r := gen.NewRand(cfg.Seed)
+	stats = map[string]int{}
+	repoName := func(k, j int) string { return fmt.Sprintf("repo-k%d-%d", k, j) }
+	repoID := func(k, j int) uint32 { return uint32(k*10 + j + 1) }
+	gen_ := 0
+	mk := func() map[string]zoekt.Searcher {
+		m := map[string]zoekt.Searcher{}
+		for k := 0; k < cfg.Shards; k++ {
+			st := &cstub{sid: gen_*1000 + k, key: k, gen: gen_, reg: reg}
+			for j := 0; j < cfg.PerShard; j++ {
+				st.repos = append(st.repos, repoName(k, j))
+				st.ids = append(st.ids, repoID(k, j))
+				st.prios = append(st.prios, float64((k+2*j)%4))
+			}
+			m[fmt.Sprintf("key%d", k)] = st
+		}
+		gen_++
+		return m
+	}
+	vs.Replace(mk())
+	var trail []string
+	for i := 0; i < cfg.Requests; i++ {
+		// which repositories the query names: all of a shard, some of a shard, spread over shards, none
+		sel := map[string]bool{}
+		var ids []uint32
+		shape := gen.Pick(r, []string{"partial", "partial", "whole", "spread", "all", "plain"})
+		k0 := r.Intn(cfg.Shards)
+		switch shape {
+		case "partial":
+			j := r.Intn(cfg.PerShard)
+			sel[repoName(k0, j)] = true
+			ids = append(ids, repoID(k0, j))
+		case "whole":
+			for j := 0; j < cfg.PerShard; j++ {
+				sel[repoName(k0, j)] = true
+				ids = append(ids, repoID(k0, j))
+			}
+		case "spread":
+			for k := 0; k < cfg.Shards; k++ {
+				sel[repoName(k, k%cfg.PerShard)] = true
+				ids = append(ids, repoID(k, k%cfg.PerShard))
+			}
+		case "all":
+			for k := 0; k < cfg.Shards; k++ {
+				for j := 0; j < cfg.PerShard; j++ {
+					sel[repoName(k, j)] = true
+					ids = append(ids, repoID(k, j))
+				}
+			}
+		}
+		var q query.Q = &query.Substring{Pattern: "x"}
+		atom := "none"
+		if shape != "plain" {
+			atom = gen.Pick(r, []string{"reposet", "reposet", "repoids", "branchesrepos"})
+			var a query.Q
+			switch atom {
+			case "reposet":
+				a = &query.RepoSet{Set: sel}
+			case "repoids":
+				a = query.NewRepoIDs(ids...)
+			case "branchesrepos":
+				a = query.NewSingleBranchesRepos("HEAD", ids...)
+			}
+			q = &query.And{Children: []query.Q{a, q}}
+		}
+		api := gen.Pick(r, []string{"search", "search", "stream", "list"})
+		trail = append(trail, api+":"+shape+":"+atom)
+		stats["gated:"+shape]++
+		var once sync.Once
+		gate := func() {
+			once.Do(func() {
+				if r.Chance(1, 4) {
+					// drop half of the shards instead of replacing them
+					m := mk()
+					for k := range m {
+						if r.Bool() {
+							m[k] = nil
+						}
+					}
+					vs.Replace(m)
+					vs.Replace(mk())
+				} else {
+					vs.Replace(mk())
+				}
+				for g := 0; g < 3; g++ {
+					runtime.GC()
+					time.Sleep(time.Millisecond)
+				}
+			})
+		}
+		ctx := context.WithValue(context.Background(), gateKey{}, gate)
+		var err error
+		switch api {
+		case "search":
+			_, err = ss.Search(ctx, q, &zoekt.SearchOptions{})
+		case "stream":
+			var cs countSender
+			err = ss.StreamSearch(ctx, q, &zoekt.SearchOptions{}, &cs)
+		case "list":
+			lq := q
+			if a, ok := q.(*query.And); ok {
+				lq = a.Children[0]
+			} else {
+				lq = &query.Const{Value: true}
+			}
+			_, err = ss.List(ctx, lq, nil)
+		}
+		if err != nil {
+			return fmt.Sprintf("requests %v: %v", trail, err), "search-error", stats
+		}
+		if n := reg.useAfter.Load(); n > 0 {
+			return fmt.Sprintf("requests %v: the shard the last request was executing in was closed under it (%d observations): it was replaced, a GC ran, and the list the search works on did not keep it alive", trail, n), "use-after-close", stats
+		}
+	}
+	if reg.doubleClose.Load() > 0 {
+		return "a shard was closed twice", "closed-twice", stats
+	}
+	for _, x := range vs.Loaded().Searchers() {
+		if x.(*cstub).closed.Load() {
+			return "a loaded shard was closed", "closed-live-shard", stats
+		}
+	}
+	runtime.KeepAlive(vs)
+	return "", "", stats
+}
+
+func emitGated(w *gen.Writer, cfg gatedCfg, class string) {
+	v, k, stats := runGated(cfg)
+	for a, b := range stats {
+		w.Count(a, b)
+	}
+	w.Emit(gen.Case{Go: v, Key: k, Class: class, Nontrivial: stats["gated:partial"] > 0,
+		Detail: gen.Detail(map[string]any{"kind": "gated", "case": cfg, "stats": stats})})
+}
+
+// ---------------------------------------------------------------------------------------------------------------
+// busyscan: the live watcher (fsnotify, its own goroutines) is kept inside a scan - blocked in loader.load on a named
+// pipe with a shard name - while the directory changes; then the pipe is released and the directory stays quiet. The
+// event of those changes arrived during the scan and after its Glob/Lstat: the watcher has to scan once more.
+
+type busyCfg struct {
+	Repos int    `json:"repos"`
+	Edits int    `json:"edits"`
+	Seed  uint64 `json:"seed"`
+}
+
+func runBusyScan(cfg busyCfg) (verdict, key string, stats map[string]int) {
+	dir := mkTmp("busy")
+	defer os.RemoveAll(dir)
+	stats = map[string]int{}
+	r := gen.NewRand(cfg.Seed)
+	clock := 0
+	base := time.Now().Add(-2 * time.Hour)
+	write := func(name string, data []byte) {
+		tmp := filepath.Join(dir, fmt.Sprintf("tmp-%d.part", clock))
+		os.WriteFile(tmp, data, 0o644)
+		clock++
+		t := base.Add(time.Duration(clock) * time.Millisecond)
+		os.Chtimes(tmp, t, t)
+		os.Rename(tmp, filepath.Join(dir, name))
+	}
+	files := map[string]*diskFile{}
+	ver := 0
+	for i := 0; i < cfg.Repos; i++ {
+		ver++
+		write(shardBase(i, 16), buildShard(fmt.Sprintf("repo%d", i), uint32(i+1), ver, docsPerShard))
+		files[shardBase(i, 16)] = &diskFile{cv: ver}
+	}
+	ds, err := search.NewDirectorySearcher(dir)
+	if err != nil {
+		return "NewDirectorySearcher: " + err.Error(), "e2e-setup", stats
+	}
+	defer ds.Close()
+	vsh, _ := search.VerifUnwrapDirectorySearcher(ds)
+	// keep the watcher busy: a scan that blocks in loader.load
+	pipe := filepath.Join(dir, "00slow_v16.00000.zoekt")
+	if err := syscall.Mkfifo(pipe, 0o644); err != nil {
+		return "mkfifo: " + err.Error(), "e2e-setup", stats
+	}
+	time.Sleep(300 * time.Millisecond) // event -> scan -> Glob/Lstat -> load blocks on the pipe
+	var trail []string
+	for e := 0; e < cfg.Edits; e++ {
+		i := r.Intn(cfg.Repos + 1) // repo cfg.Repos is new
+		name := shardBase(i, 16)
+		rn := fmt.Sprintf("repo%d", i)
+		op := gen.Pick(r, []string{"write", "write", "delete", "sidecar"})
+		if files[name] == nil {
+			op = "write"
+		}
+		trail = append(trail, op+":"+rn)
+		switch op {
+		case "write":
+			ver++
+			write(name, buildShard(rn, uint32(i+1), ver, docsPerShard))
+			if f := files[name]; f != nil {
+				f.cv = ver
+			} else {
+				files[name] = &diskFile{cv: ver}
+			}
+		case "delete":
+			os.Remove(filepath.Join(dir, name))
+			os.Remove(filepath.Join(dir, name+".meta"))
+			delete(files, name)
+		case "sidecar":
+			ver++
+			meta, _ := json.Marshal(&zoekt.Repository{Name: rn, ID: uint32(i + 1), RawConfig: map[string]string{"mv": strconv.Itoa(ver)}})
+			write(name+".meta", meta)
+			files[name].mv = ver
+		}
+		stats["busyscan:"+op]++
+	}
+	time.Sleep(200 * time.Millisecond) // the events are delivered while the scan is still blocked
+	openPipeWriter(pipe)               // the slow load ends (and fails); the directory is quiet from now on
+	os.Remove(pipe)                    // (one more event; harmless either way - it is removed after the release)
+	// convergence: well before the watcher's one-minute safety ticker
+	var wantKeys []string
+	for n := range files {
+		wantKeys = append(wantKeys, filepath.Join(dir, n))
+	}
+	sort.Strings(wantKeys)
+	deadline := time.Now().Add(8 * time.Second)
+	last := ""
+	for time.Now().Before(deadline) {
+		time.Sleep(20 * time.Millisecond)
+		last = ""
+		if got := vsh.Keys(); strings.Join(got, ",") != strings.Join(wantKeys, ",") {
+			last = fmt.Sprintf("loaded %v, on disk %v", baseNames(got), baseNames(wantKeys))
+			continue
+		}
+		res, err := ds.Search(context.Background(), &query.Substring{Pattern: "needle"}, &zoekt.SearchOptions{})
+		if err != nil {
+			last = "Search: " + err.Error()
+			continue
+		}
+		got := map[string]int{}
+		for _, f := range res.Files {
+			got[f.Repository] = cvOf(f.FileName)
+		}
+		rl, err := ds.List(context.Background(), &query.Const{Value: true}, nil)
+		if err != nil {
+			last = "List: " + err.Error()
+			continue
+		}
+		mvs := map[string]int{}
+		for _, e := range rl.Repos {
+			mvs[e.Repository.Name], _ = strconv.Atoi(e.Repository.RawConfig["mv"])
+		}
+		for n, f := range files {
+			var i, fv int
+			fmt.Sscanf(n, "repo%d_v%d", &i, &fv)
+			rn := fmt.Sprintf("repo%d", i)
+			if got[rn] != f.cv {
+				last = fmt.Sprintf("Search serves version %d of %s, disk has %d", got[rn], rn, f.cv)
+			} else if mvs[rn] != f.mv {
+				last = fmt.Sprintf("List serves sidecar version %d of %s, disk has %d", mvs[rn], rn, f.mv)
+			}
+		}
+		if last == "" {
+			return "", "", stats
+		}
+	}
+	return fmt.Sprintf("8s after the directory went quiet (changes %v were made while the watcher was inside a scan): %s", trail, last), "not-converged", stats
+}
+
+func emitBusy(w *gen.Writer, cfg busyCfg, class string) {
+	v, k, stats := runBusyScan(cfg)
+	for a, b := range stats {
+		w.Count(a, b)
+	}
+	w.Emit(gen.Case{Go: v, Key: k, Class: class, Nontrivial: true,
+		Detail: gen.Detail(map[string]any{"kind": "busyscan", "case": cfg, "stats": stats})})
+}
+
+// ---------------------------------------------------------------------------------------------------------------
 
 type stored struct {
 	Kind    string          `json:"kind"`
@@ -1556,6 +1917,14 @@ func runStored(w *gen.Writer, st stored, class string) {
 		var cfg slowCfg
 		json.Unmarshal(st.Case, &cfg)
 		w.Emit(runSlowLoad(cfg, class))
+	case "gated":
+		var cfg gatedCfg
+		json.Unmarshal(st.Case, &cfg)
+		emitGated(w, cfg, class)
+	case "busyscan":
+		var cfg busyCfg
+		json.Unmarshal(st.Case, &cfg)
+		emitBusy(w, cfg, class)
 	case "conc":
 		var cfg concCfg
 		json.Unmarshal(st.Case, &cfg)
@@ -1818,6 +2187,17 @@ func childMain(f gen.Flags) {
 		concAndE2E(w, r, 0, 1, "")
 	}
 	lap("e2e")
+
+	w = ph.next()
+	for i := 0; i < f.N(40, 250); i++ {
+		emitGated(w, gatedCfg{Shards: r.Range(1, 4), PerShard: r.Range(2, 3), Requests: r.Range(3, 10), Seed: r.U64()}, "gated")
+	}
+	lap("gated")
+	w = ph.next()
+	for i := 0; i < f.N(4, 20); i++ {
+		emitBusy(w, busyCfg{Repos: r.Range(1, 3), Edits: r.Range(1, 3), Seed: r.U64()}, "busyscan")
+	}
+	lap("busyscan")
 
 	w = ph.next()
 	for i := 0; i < nslow; i++ {
